@@ -123,9 +123,9 @@ theorem pool_stopCalled (k : Nat) (n : Option Nat) (p p' : Pool.State) (i : Nat)
   · cases h
 
 theorem pool_main_frame (k : Nat) (n : Option Nat) (p p' : Pool.State) (e : Pool.Event)
-    (he : e = .submit ∨ (∃ c, e = .waitFirst c) ∨ e = .waitAll ∨ ∃ r, e = .exit r)
+    (he : e = .submit ∨ (∃ c, e = .waitFirst c) ∨ e = .waitAll ∨ (∃ r, e = .exit r) ∨ e = .timeout)
     (h : Pool.step k n p e = some p') : p'.begun = p.begun ∧ p'.ended = p.ended := by
-  rcases he with rfl | ⟨c, rfl⟩ | rfl | ⟨r, rfl⟩ <;> simp only [Pool.step] at h <;> split at h <;>
+  rcases he with rfl | ⟨c, rfl⟩ | rfl | ⟨r, rfl⟩ | rfl <;> simp only [Pool.step] at h <;> split at h <;>
     first | (cases h; exact ⟨rfl, rfl⟩) | cases h
 
 theorem pool_run_snoc (k : Nat) (n : Option Nat) (p0 : Pool.State) (pes : List Pool.Event)
@@ -444,7 +444,7 @@ theorem rinv_init (P : Params) : RInv P init := by
   refine ⟨⟨[], rfl⟩, winv_init P, ?_, ?_, ?_⟩ <;> simp [init]
 
 theorem rinv_lift (P : Params) (s s' : State) (e : Pool.Event) (hi : RInv P s) (hd : s.done = none)
-    (he : e = .submit ∨ (∃ c, e = .waitFirst c) ∨ e = .waitAll ∨ ∃ r, e = .exit r)
+    (he : e = .submit ∨ (∃ c, e = .waitFirst c) ∨ e = .waitAll ∨ (∃ r, e = .exit r) ∨ e = .timeout)
     (h : liftPool P s e = some s') : RInv P s' := by
   unfold liftPool at h
   cases hp : Pool.step P.k P.n s.pool e with
@@ -482,6 +482,11 @@ theorem rinv_step (P : Params) (s s' : State) (ev : Event) (hi : RInv P s) (h : 
       split at h
       · exact rinv_lift P s s' (.waitFirst c) hi hd (Or.inr (Or.inl ⟨c, rfl⟩)) h
       · cases h
+    | timeout =>
+      simp only [] at h
+      split at h
+      · exact rinv_lift P s s' .timeout hi hd (Or.inr (Or.inr (Or.inr (Or.inr rfl)))) h
+      · cases h
     | waitAll =>
       simp only [] at h
       split at h
@@ -500,7 +505,7 @@ theorem rinv_step (P : Params) (s s' : State) (ev : Event) (hi : RInv P s) (h : 
           cases h
           obtain ⟨pes, hpes⟩ := hi.sim
           obtain ⟨hb, hen⟩ := pool_main_frame P.k P.n s.pool p (.exit r)
-            (Or.inr (Or.inr (Or.inr ⟨r, rfl⟩))) hp
+            (Or.inr (Or.inr (Or.inr (Or.inl ⟨r, rfl⟩)))) hp
           have hrun := pool_run_snoc _ _ _ _ _ _ _ hpes hp
           have hph : p.phase = .exited r := by
             simp only [Pool.step] at hp
@@ -675,8 +680,10 @@ exception raised in the main thread itself and propagating through `ThreadPoolEx
    raising callback), never for another trial and never for a number that is not a trial;
 5. at most `n_trials` futures were submitted; if `_optimize` was not interrupted: it returns only if
    every future returned, it raises class `c` only if a future raised `c`, and if it returns without
-   `study.stop()` having been called exactly `n_trials` futures were submitted; if it was interrupted
-   by class `c`, it raises `c`. -/
+   `study.stop()` having been called and without the main thread having seen the `timeout` elapse
+   (stop-free, timeout-free return) exactly `n_trials` futures were submitted; if it was interrupted
+   by class `c`, it raises `c`.  (`≤ n_trials` always; `timedOut` is possible only if a timeout was
+   given: `timedOut_only_with_timeout`, `pool_exactly_n_without_timeout`.) -/
 theorem pool_all_submitted_trials_terminal (P : Params) (es : List Event) (s : State) (r : Pool.Res)
     (hj : P.joins = true) (h : run P init es = some s) (hx : s.done = some r) :
     (∀ i, i < s.pool.submitted → s.pool.begun i = true ∧
@@ -699,7 +706,8 @@ theorem pool_all_submitted_trials_terminal (P : Params) (es : List Event) (s : S
       (s.interrupted = none →
         (r = .ok → ∀ i, i < s.pool.submitted → s.pool.ended i = some .ok) ∧
         (∀ c, r = .raised c → ∃ i, i < s.pool.submitted ∧ s.pool.ended i = some (.raised c)) ∧
-        (r = .ok → s.pool.stop = false → ∀ m, P.n = some m → s.pool.submitted = m)) ∧
+        (r = .ok → s.pool.stop = false → s.pool.timedOut = false →
+          ∀ m, P.n = some m → s.pool.submitted = m)) ∧
       ∀ c, s.interrupted = some c → r = .raised c) := by
   have hi := rinv_run P init s es (rinv_init P) h
   have hp := hi.pinv
@@ -771,15 +779,150 @@ theorem pool_all_submitted_trials_terminal (P : Params) (es : List Event) (s : S
     have hph := hi.done_normal r hx hin
     obtain ⟨_, hok, hraise⟩ := hp.exited r hph
     refine ⟨hok, hraise, ?_⟩
-    intro hr hs m hm
+    intro hr hs ht m hm
     subst hr
-    rcases hp.drained_why (Or.inr hph) with h1 | h1
+    rcases hp.drained_why (Or.inr hph) with h1 | h1 | h1
     · rw [hs] at h1; cases h1
     · rw [hm] at h1
       simp only [Pool.quotaReached, decide_eq_true_eq] at h1
       exact Nat.le_antisymm (hp.quota m hm) h1
+    · rw [ht] at h1; cases h1
   · intro c hc
     exact hi.done_intr r c hx hc
+
+/-! ### the main thread's timeout break -/
+
+theorem pool_timedOut_frame (k : Nat) (n : Option Nat) (p p' : Pool.State) (e : Pool.Event)
+    (he : e ≠ .timeout) (h : Pool.step k n p e = some p') : p'.timedOut = p.timedOut := by
+  cases e <;> simp only [Pool.step] at h <;> first
+    | exact absurd rfl he
+    | (split at h <;> first | (cases h; rfl) | cases h)
+
+theorem timed_step (P : Params) (s s' : State) (ev : Event) (h : step P s ev = some s')
+    (ht : s.pool.timedOut = true → P.timeout.isSome = true) :
+    s'.pool.timedOut = true → P.timeout.isSome = true := by
+  have lift : ∀ e, e ≠ Pool.Event.timeout → liftPool P s e = some s' → s'.pool.timedOut = s.pool.timedOut := by
+    intro e he hl
+    unfold liftPool at hl
+    cases hp : Pool.step P.k P.n s.pool e with
+    | none => rw [hp] at hl; cases hl
+    | some p => rw [hp] at hl; cases hl; exact pool_timedOut_frame _ _ _ _ e he hp
+  unfold step at h
+  split at h
+  · cases h
+  · cases ev with
+    | submit =>
+      simp only [] at h
+      split at h
+      · rw [lift _ (by intro e; cases e) h]; exact ht
+      · cases h
+    | waitFirst c =>
+      simp only [] at h
+      split at h
+      · rw [lift _ (by intro e; cases e) h]; exact ht
+      · cases h
+    | timeout =>
+      simp only [] at h
+      split at h
+      · rename_i hg
+        intro _; exact hg.2
+      · cases h
+    | waitAll =>
+      simp only [] at h
+      split at h
+      · rw [lift _ (by intro e; cases e) h]; exact ht
+      · cases h
+    | exit r =>
+      simp only [] at h
+      cases hin : s.interrupted with
+      | none =>
+        rw [hin] at h
+        simp only [] at h
+        cases hp : Pool.step P.k P.n s.pool (.exit r) with
+        | none => rw [hp] at h; cases h
+        | some p =>
+          rw [hp] at h; cases h
+          rw [show p.timedOut = s.pool.timedOut from pool_timedOut_frame _ _ _ _ _ (by intro e; cases e) hp]
+          exact ht
+      | some c =>
+        rw [hin] at h
+        simp only [] at h
+        split at h
+        · cases h; exact ht
+        · cases h
+    | interrupt c =>
+      simp only [] at h
+      split at h
+      · cases h; exact ht
+      · cases h
+    | begin i =>
+      simp only [] at h
+      cases hp : Pool.step P.k P.n s.pool (.begin i) with
+      | none => rw [hp] at h; cases h
+      | some p =>
+        rw [hp] at h
+        simp only [] at h
+        have hf : p.timedOut = s.pool.timedOut := pool_timedOut_frame _ _ _ _ _ (by intro e; cases e) hp
+        split at h <;> (cases h; rw [show _ = s.pool.timedOut from hf]; exact ht)
+    | stopCalled i =>
+      simp only [] at h
+      split at h
+      · rw [lift _ (by intro e; cases e) h]; exact ht
+      · cases h
+    | finish i =>
+      simp only [] at h
+      have h1 : ∀ p1, (if (jobOut P (s.stop0 i) i).stopFlag = true then
+            Pool.step P.k P.n s.pool (.stopCalled i) else some s.pool) = some p1 →
+          p1.timedOut = s.pool.timedOut := by
+        intro p1 hp1
+        split at hp1
+        · exact pool_timedOut_frame _ _ _ _ _ (by intro e; cases e) hp1
+        · cases hp1; rfl
+      cases hq : (if (jobOut P (s.stop0 i) i).stopFlag = true then
+            Pool.step P.k P.n s.pool (.stopCalled i) else some s.pool) with
+      | none => rw [hq] at h; cases h
+      | some p1 =>
+        rw [hq] at h
+        simp only [] at h
+        cases hp2 : Pool.step P.k P.n p1 (.finish i (resOf P.cls (jobOut P (s.stop0 i) i).raised)) with
+        | none => rw [hp2] at h; cases h
+        | some p2 =>
+          rw [hp2] at h; cases h
+          rw [show p2.timedOut = s.pool.timedOut from
+            (pool_timedOut_frame _ _ _ _ _ (by intro e; cases e) hp2).trans (h1 p1 hq)]
+          exact ht
+
+/-- **timedOut_only_with_timeout** — the main thread sees "timeout elapsed" only if a timeout was given. -/
+theorem timedOut_only_with_timeout (P : Params) (es : List Event) (s : State)
+    (h : run P init es = some s) : s.pool.timedOut = true → P.timeout.isSome = true := by
+  have key : ∀ (es : List Event) (s0 : State), (s0.pool.timedOut = true → P.timeout.isSome = true) →
+      run P s0 es = some s → s.pool.timedOut = true → P.timeout.isSome = true := by
+    intro es
+    induction es with
+    | nil => intro s0 h0 hr; simp only [run, Option.some.injEq] at hr; subst hr; exact h0
+    | cons e es ih =>
+      intro s0 h0 hr
+      simp only [run] at hr
+      cases hs : step P s0 e with
+      | none => rw [hs] at hr; cases hr
+      | some s1 => rw [hs] at hr; exact ih s1 (timed_step P s0 s1 e hs h0) hr
+  exact key es init (by intro h0; cases h0) h
+
+/-- **pool_exactly_n_without_timeout** — the accounting of `optimize(n_trials = m, n_jobs = k)` called
+without a timeout: if it returns (not interrupted) and `study.stop()` was never called, exactly `m`
+futures were submitted. -/
+theorem pool_exactly_n_without_timeout (P : Params) (es : List Event) (s : State) (hj : P.joins = true)
+    (hto : P.timeout = none) (h : run P init es = some s) (hx : s.done = some .ok)
+    (hin : s.interrupted = none) (hs : s.pool.stop = false) (m : Nat) (hm : P.n = some m) :
+    s.pool.submitted = m := by
+  have ht : s.pool.timedOut = false := by
+    cases hb : s.pool.timedOut with
+    | false => rfl
+    | true =>
+      have := timedOut_only_with_timeout P es s h hb
+      rw [hto] at this
+      cases this
+  exact ((pool_all_submitted_trials_terminal P es s .ok hj h hx).2.2.2.2.2.1 hin).2.2 rfl hs ht m hm
 
 /-- **pool_no_trial_left_running** — the short form: when `optimize(n_jobs = k)` returns or raises
 (for whatever reason), no trial is RUNNING in the storage. -/
@@ -877,6 +1020,13 @@ example : run demo init [.submit, .begin 0, .interrupt 9, .finish 0, .exit .ok] 
 example : ∃ s, run demo init [.submit, .submit, .begin 0, .begin 1, .finish 1] = some s ∧ s.done = none ∧
     (s.store 0).map (fun c => c.row.state) = some .running ∧
     (s.store 1).map (fun c => c.row.state) = some .fail := ⟨_, rfl, rfl, by decide, by decide⟩
+
+/-- the main thread's timeout break: two of four trials submitted, nothing stopped, `optimize` returns;
+without a timeout given the clock event is not enabled -/
+example : ∃ s, run { demo with n := some 4, timeout := some 5, jobs := fun _ => {} } init
+    [.submit, .submit, .begin 0, .begin 1, .finish 1, .finish 0, .timeout, .waitAll, .exit .ok] = some s ∧
+    s.done = some .ok ∧ s.pool.submitted = 2 ∧ s.pool.stop = false ∧ s.pool.timedOut = true := ⟨_, rfl, rfl, rfl, rfl, rfl⟩
+example : run { demo with n := some 4, jobs := fun _ => {} } init [.submit, .timeout] = none := rfl
 
 /-- a future whose worker sees the stop flag at its loop head starts no trial -/
 def demoStop : Params :=
